@@ -620,6 +620,109 @@ pub fn c07(r: &mut Rng, sz: &Sizes, out: &mut Vec<String>) {
     }
 }
 
+/// shapes for the generator: inferred from random source sets, plus hand-built ones with ASCII keys
+fn gen_shapes(r: &mut Rng, sz: &Sizes) -> Vec<JsonShape> {
+    let mut out: Vec<JsonShape> = Vec::new();
+    let keys = ["a", "b", "c", "id", "user_name", "camelCase", "key space", "type", "1a", "A", "x-y"];
+    for i in 0..sz.histories / 2 {
+        let mut h = rand_history(r, &keys[..5 + (i % 6)]);
+        if r.chance(1, 3) {
+            h.truncate(1);
+        }
+        let srcs: Vec<String> = h.iter().map(|d| d.render(0)).collect();
+        if let Ok(s) = JsonShape::from_sources(&srcs) {
+            out.push(s);
+        }
+    }
+    out.extend(small_shapes());
+    out.extend(medium_shapes());
+    for i in 0..sz.shapes / 3 {
+        out.push(rand_shape_keys(r, 1 + i % 4, &keys));
+    }
+    out
+}
+
+fn rand_shape_keys(r: &mut Rng, depth: usize, keys: &[&str]) -> JsonShape {
+    // random_shape with ASCII keys only
+    let s = rand_shape(r, depth);
+    rekey(&s, r, keys)
+}
+
+fn rekey(s: &JsonShape, r: &mut Rng, keys: &[&str]) -> JsonShape {
+    match s {
+        JsonShape::Array { r#type, optional } => JsonShape::Array { r#type: Box::new(rekey(r#type, r, keys)), optional: *optional },
+        JsonShape::Object { content, optional } => JsonShape::Object {
+            content: content.values().map(|v| (r.pick(keys).to_string(), rekey(v, r, keys))).collect(),
+            optional: *optional,
+        },
+        JsonShape::OneOf { variants, optional } => JsonShape::OneOf {
+            variants: variants.iter().map(|v| rekey(v, r, keys)).collect(),
+            optional: *optional,
+        },
+        JsonShape::Tuple { elements, optional } => JsonShape::Tuple {
+            elements: elements.iter().map(|v| rekey(v, r, keys)).collect(),
+            optional: *optional,
+        },
+        other => other.clone(),
+    }
+}
+
+pub fn gen_ops(r: &mut Rng, sz: &Sizes, out: &mut Vec<String>) {
+    for s in gen_shapes(r, sz) {
+        out.push(format!("gen\t{}", sx(&s)));
+    }
+}
+
+fn source_sets(r: &mut Rng, n: usize) -> Vec<Vec<String>> {
+    let keys = ["a", "b", "c", "id", "user_name", "value"];
+    let mut out = vec![
+        vec!["{\"a\":1,\"b\":[1,2],\"c\":{\"d\":\"x\"}}".to_string()],
+        vec!["{\"x\":{\"p\":1},\"y\":{\"p\":2}}".to_string()],
+        vec!["[1,\"a\",true]".to_string()],
+        vec!["{\"a\":[[1],[2,3]]}".to_string(), "{\"a\":null}".to_string()],
+        vec!["{\"items\":[{\"id\":1,\"tag\":\"x\"},{\"id\":2}]}".to_string()],
+        vec!["{\"a\":1}".to_string(), "{\"a\":\"s\"}".to_string()],
+        vec!["{}".to_string()],
+        vec!["{}".to_string(), "null".to_string()],
+        vec!["{\"x\":{\"p\":1},\"y\":{\"q\":2}}".to_string()],
+        vec!["{\"camelCase\":1,\"key space\":2}".to_string()],
+        vec!["{\"type\":1}".to_string()],
+        vec!["1".to_string()],
+        vec!["null".to_string(), "\"s\"".to_string()],
+    ];
+    for _ in 0..n {
+        let h = rand_history(r, &keys);
+        out.push(h.iter().map(|d| d.render(0)).collect());
+    }
+    out
+}
+
+pub fn compile_ops(r: &mut Rng, n: usize, op: &str, out: &mut Vec<String>) {
+    for (i, set) in source_sets(r, n).iter().enumerate() {
+        let name = ["collection", "a.b", "x", "my-shapes", "v1.2.3"][i % 5];
+        let mut line = format!("{op}\t{}", crate::wire::hex(name.as_bytes()));
+        for s in set {
+            line.push('\t');
+            line.push_str(&crate::wire::hex(s.as_bytes()));
+        }
+        out.push(line);
+    }
+}
+
+pub fn c13(r: &mut Rng, sz: &Sizes, out: &mut Vec<String>) {
+    gen_ops(r, sz, out);
+    compile_ops(r, sz.histories / 10, "compile", out);
+}
+
+pub fn c16(r: &mut Rng, sz: &Sizes, out: &mut Vec<String>) {
+    gen_ops(r, sz, out);
+    compile_ops(r, sz.histories / 10, "p_c16", out);
+    // error cases: invalid, empty list, unreadable path are exercised by the orchestrator-independent op below
+    out.push(format!("p_c16\t{}\t{}", crate::wire::hex(b"bad"), crate::wire::hex(b"{\"a\":")));
+    out.push(format!("p_c16\t{}\t{}\t{}", crate::wire::hex(b"bad2"), crate::wire::hex(b"1"), crate::wire::hex(b"tru")));
+    out.push(format!("p_c16\t{}", crate::wire::hex(b"empty")));
+}
+
 pub fn generate(prop: &str, tier: &str, seed: u64) -> Vec<String> {
     let mut r = Rng(seed ^ 0x5eed_0000 ^ (prop.bytes().fold(0u64, |a, b| a * 131 + b as u64)));
     let sz = sizes(tier);
@@ -637,6 +740,8 @@ pub fn generate(prop: &str, tier: &str, seed: u64) -> Vec<String> {
         "C09" => c09(&mut r, &sz, &mut out),
         "C11" => c11(&mut r, &sz, &mut out),
         "C12" => c12(&mut r, &sz, &mut out),
+        "C13" | "C14" | "C15" => c13(&mut r, &sz, &mut out),
+        "C16" => c16(&mut r, &sz, &mut out),
         "C08" => c08(&mut r, &sz, &mut out),
         "C17" => c17(&mut r, &sz, &mut out),
         "core" => core(&mut r, &sz, &mut out),
